@@ -29,7 +29,8 @@ ASSUMPTIONS = [
 FLOORS = {
     "quick": {"build_vs_reference": 20000, "parse_roundtrip": 20000, "datagrams": 1500,
               "datagram_messages": 5000, "type_code_pairs": 110, "datagrams_after_a_malformed_one": 300, "datagrams_repeated_verbatim": 300,
-              "datagrams_received_with_debug_logging_on": 600, "datagrams_received_with_debug_logging_off": 600},
+              "datagrams_received_with_debug_logging_on": 600, "datagrams_received_with_debug_logging_off": 600,
+              "datagrams_sent_through_the_librarys_send": 400, "datagrams_over_1400_bytes_sent_through_the_librarys_send": 60},
     "thorough": {"build_vs_reference": 1000000, "parse_roundtrip": 1000000, "datagrams": 50000,
                  "type_code_pairs": 110},
 }
@@ -151,6 +152,17 @@ def check_message(H, m, suffix, ctx):
     return ok
 
 
+_SENT = [0]
+
+
+class _Wire:
+    def __init__(self, pieces):
+        self.pieces = pieces
+
+    def sendto(self, data, addr=None):
+        self.pieces.append(bytes(data))
+
+
 class _Endpoint:
     """one long-lived datagram endpoint per shard: what a datagram delivers must not depend on what the endpoint received before"""
 
@@ -185,7 +197,28 @@ def check_datagram(S, H, msgs, multicast, ctx, endpoint=None, noise=None, repeat
     p = ep.p
     data = b"".join(refwire.encode_someip(m) for m in msgs)
     addr = ("192.0.2.7", 30501)
-    if debug:
+    _SENT[0] += 1
+    if _SENT[0] % 3 == 0:
+        # the bundle leaves its sender through the library's own send(): one bundle, one datagram - what the peer's socket
+        # hands over is what send() gave the transport, piece by piece
+        pieces = []
+        sender = S.SOMEIPDatagramProtocol()
+        sender.transport = _Wire(pieces)
+        sender.send(data, ("192.0.2.8", 30502))
+        ctx.count("datagrams_sent_through_the_librarys_send")
+        if len(data) > 1400:
+            ctx.count("datagrams_over_1400_bytes_sent_through_the_librarys_send")
+    else:
+        pieces = [data]
+    if len(pieces) == 1:
+        data = pieces[0]
+    if len(pieces) != 1:
+        for piece in pieces:
+            try:
+                p.datagram_received(piece, addr, multicast)
+            except Exception:  # noqa: B902
+                pass
+    elif debug:
         p.datagram_received(data, addr, multicast)
     else:
         # through the adapter that create_unicast_endpoint() / create_endpoints() put between the socket and the protocol object
